@@ -159,7 +159,7 @@ class C06(core.Check):
         'label-not-first-on-its-line/global', 'label-not-first-on-its-line/local', 'label-not-first-on-its-line/file',
         'reference-inside:indirect-numeric', 'reference-inside:deferred-numeric', 'reference-inside:indexed-register',
         'reference-inside:indirect-indexed-register', 'reference-inside:indirect-register-offset',
-        'local-inside-operand-form-with-same-named-global', 'illegal:undefined/name-that-nearly-reads-as-a-number', 'predefined-data-name-in-a-constant', 'predefined-data-name-in-an-origin']}
+        'local-inside-operand-form-with-same-named-global', 'no-image-asked-for', 'illegal:undefined/name-that-nearly-reads-as-a-number', 'predefined-data-name-in-a-constant', 'predefined-data-name-in-an-origin']}
 
     def build(self, rng, illegal, mute_refs=None, zero_refs=None, join_p=0.15, via_p=0.25, pre_p=0.35):
         nfiles = rng.choice([1, 1, 2, 2, 3, 4])
@@ -592,6 +592,10 @@ class C06(core.Check):
                     made += 0
                 continue
             made += 1
+            if c['meta']['kind'] == 'REJECT' and made % 3 == 0:
+                # no image asked for: a reference that resolves to nothing is refused all the same
+                c['runs'][0]['argv'] = c['runs'][0]['argv'] + ['-n']
+                c['tags'] = sorted(set(c['tags']) | {'no-image-asked-for'})
             yield c
 
     def shadow_cases(self):
